@@ -5,7 +5,8 @@ from __future__ import annotations
 from typing import TYPE_CHECKING, cast
 
 import sympy
-from sympy.printing import jscode, julia_code, rust_code
+from sympy.printing import julia_code, rust_code
+from sympy.printing.jscode import JavascriptCodePrinter
 from sympy.printing.pycode import PythonCodePrinter
 
 from mxlpy.meta.source_tools import fn_to_sympy
@@ -25,16 +26,38 @@ __all__ = [
 ]
 
 
+def _mod_operands(printer: PythonCodePrinter | JavascriptCodePrinter, expr: sympy.Mod) -> list[str]:
+    """Print the operands of a remainder, in parentheses unless they are a single name or number.
+
+    sympy decides by the precedence of the sympy node, but 1/p is a Pow that is
+    printed as a division: `x % 1/p` is read as (x % 1)/p.
+    """
+    return [
+        printer._print(arg) if arg.is_Atom else f"({printer._print(arg)})"  # noqa: SLF001
+        for arg in expr.args
+    ]
+
+
 class _PythonPrinter(PythonCodePrinter):
-    """Python printer that keeps `%` from capturing the factors in front of it."""
+    """Python printer that keeps `%` apart from the factors around and inside it."""
 
     def _print_Mod(self, expr: sympy.Mod) -> str:
         # sympy prints -x * Mod(y, z) as "-x*y % z", which Python reads as (-x*y) % z
-        return f"({super()._print_Mod(expr)})"
+        dividend, divisor = _mod_operands(self, expr)
+        return f"({dividend} % {divisor})"
 
     def _print_Float(self, expr: sympy.Float) -> str:
         # sympy prints 15 significant digits, which is not always the same number
         return repr(float(expr))
+
+
+class _JsPrinter(JavascriptCodePrinter):
+    """JavaScript printer that keeps `%` apart from the factors around and inside it."""
+
+    def _print_Mod(self, expr: sympy.Mod) -> str:
+        # `%` is the remainder in JavaScript (sign of the dividend), hence the second `%`
+        dividend, divisor = _mod_operands(self, expr)
+        return f"((({dividend} % {divisor}) + {divisor}) % {divisor})"
 
 
 def _pycode(expr: sympy.Expr, **settings: bool) -> str:
@@ -74,7 +97,7 @@ def sympy_to_inline_py(expr: sympy.Expr) -> str:
 
 def sympy_to_inline_js(expr: sympy.Expr) -> str:
     """Create rust code from sympy expression."""
-    return cast(str, jscode(expr, full_prec=False))
+    return cast(str, _JsPrinter({"full_prec": False}).doprint(expr))
 
 
 def sympy_to_inline_rust(expr: sympy.Expr) -> str:
